@@ -61,3 +61,361 @@ func VH_C14_twos48() {
 	verifObserve(got)
 	verifReach("end")
 }
+
+// ---- local payload size (spill thresholds) ----
+
+// rmLocalSize: SQLite's btreeParseCellAdjustSizeForOverflow formulation
+// (minLocal/maxLocal/surplus), transcribed from btree.c, not from sqlittle.
+func rmLocalSize(nPayload int64, usable int64, leafTable bool) int64 {
+	var maxLocal, minLocal int64
+	if leafTable {
+		maxLocal = usable - 35
+	} else {
+		maxLocal = (usable-12)*64/255 - 23
+	}
+	minLocal = (usable-12)*32/255 - 23
+	if nPayload <= maxLocal {
+		return nPayload
+	}
+	surplus := minLocal + (nPayload-minLocal)%(usable-4)
+	if surplus <= maxLocal {
+		return surplus
+	}
+	return minLocal
+}
+
+//verif:bounds 8 page sizes 512..65536 (case split), every payload length 0 <= P < 2^31, table-leaf threshold
+func VH_C14_local_table() {
+	u := verifPageSizes[verifChoice(8)]
+	p := verifInt64()
+	verifAssume(p >= 0 && p < 1<<31)
+	got := calculateCellInPageBytes(p, u, u-35)
+	want := rmLocalSize(p, int64(u), true)
+	verifAssert(int64(got) == want, "local payload size (table leaf)")
+	verifReach("end")
+}
+
+//verif:bounds 8 page sizes 512..65536 (case split), every payload length 0 <= P < 2^31, index threshold
+func VH_C14_local_index() {
+	u := verifPageSizes[verifChoice(8)]
+	p := verifInt64()
+	verifAssume(p >= 0 && p < 1<<31)
+	got := calculateCellInPageBytes(p, u, ((u-12)*64/255)-23)
+	want := rmLocalSize(p, int64(u), false)
+	verifAssert(int64(got) == want, "local payload size (index)")
+	verifReach("end")
+}
+
+// Structural form of the spec (fileformat2 §1.6): L <= X; when spilling,
+// L >= M and the overflow pages other than possibly none are exactly full
+// unless L == M.
+//verif:tier thorough
+//verif:timeout 300000
+//verif:bounds page sizes 512..4096, P < 2^20; structural spec (P-L) mod (U-4) == 0 or L == M
+func VH_C14_local_structural() {
+	u := int64(verifPageSizes[verifChoice(4)])
+	tbl := verifChoice(2) == 0
+	p := verifInt64()
+	verifAssume(p >= 0 && p < 1<<20)
+	x := (u-12)*64/255 - 23
+	if tbl {
+		x = u - 35
+	}
+	m := (u-12)*32/255 - 23
+	l := int64(calculateCellInPageBytes(p, int(u), int(x)))
+	verifAssert(l <= x && l <= p && l >= 0, "local size within page")
+	if p > x {
+		verifAssert(l >= m, "spilled cell keeps at least M bytes")
+		verifAssert(l == m || (p-l)%(u-4) == 0, "overflow pages full unless minimum local")
+	} else {
+		verifAssert(l == p, "small payload stays inline")
+	}
+	verifReach("end")
+}
+
+// ---- records ----
+
+// serial types exercised: every fixed type plus short blobs/texts and one
+// two-byte serial type (text of 58 bytes => 129).
+var vhSerials = [...]int{0, 1, 2, 3, 4, 5, 6, 7, 8, 9, 12, 13, 14, 15, 16, 17, 18, 19, 129}
+
+func vhSerialLen(c int) int {
+	switch c {
+	case 0, 8, 9:
+		return 0
+	case 1:
+		return 1
+	case 2:
+		return 2
+	case 3:
+		return 3
+	case 4:
+		return 4
+	case 5:
+		return 6
+	case 6, 7:
+		return 8
+	}
+	if c%2 == 0 {
+		return (c - 12) / 2
+	}
+	return (c - 13) / 2
+}
+
+// vhCheckValue compares one decoded value with the spec reading of its body bytes.
+func vhCheckValue(v interface{}, c int, body []byte) {
+	be := func(n int) uint64 {
+		var u uint64
+		for i := 0; i < n; i++ {
+			u = u<<8 | uint64(body[i])
+		}
+		return u
+	}
+	switch c {
+	case 0:
+		verifAssert(v == nil, "NULL decodes to nil")
+	case 1:
+		n, ok := v.(int64)
+		verifAssert(ok && n == int64(int8(be(1))), "int8 value")
+	case 2:
+		n, ok := v.(int64)
+		verifAssert(ok && n == int64(int16(be(2))), "int16 value")
+	case 3:
+		n, ok := v.(int64)
+		verifAssert(ok && n == int64(be(3)<<40)>>40, "int24 value")
+	case 4:
+		n, ok := v.(int64)
+		verifAssert(ok && n == int64(int32(be(4))), "int32 value")
+	case 5:
+		n, ok := v.(int64)
+		verifAssert(ok && n == int64(be(6)<<16)>>16, "int48 value")
+	case 6:
+		n, ok := v.(int64)
+		verifAssert(ok && n == int64(be(8)), "int64 value")
+	case 7:
+		f, ok := v.(float64)
+		verifAssert(ok, "float type")
+		if ok {
+			verifAssert(vhFloatBits(f) == be(8), "float64 bit pattern")
+		}
+	case 8:
+		n, ok := v.(int64)
+		verifAssert(ok && n == 0, "constant 0")
+	case 9:
+		n, ok := v.(int64)
+		verifAssert(ok && n == 1, "constant 1")
+	default:
+		l := vhSerialLen(c)
+		if c%2 == 0 {
+			b, ok := v.([]byte)
+			verifAssert(ok && len(b) == l, "blob type and length")
+			if ok && len(b) == l {
+				for i := 0; i < l; i++ {
+					verifAssert(b[i] == body[i], "blob byte")
+				}
+			}
+		} else {
+			s, ok := v.(string)
+			verifAssert(ok && len(s) == l, "text type and length")
+			if ok && len(s) == l {
+				for i := 0; i < l; i++ {
+					verifAssert(s[i] == body[i], "text byte")
+				}
+			}
+		}
+	}
+}
+
+// vhBuildRecord writes a record header for the chosen serial types in front of
+// a free body. Returns the record and the body offset.
+func vhBuildRecord(serials []int) ([]byte, int) {
+	hdr := 0
+	bodyLen := 0
+	for _, c := range serials {
+		if c < 128 {
+			hdr++
+		} else {
+			hdr += 2
+		}
+		bodyLen += vhSerialLen(c)
+	}
+	hs := hdr + 1
+	if hs > 127 {
+		hs = hdr + 2
+	}
+	body := verifBytes(bodyLen)
+	rec := make([]byte, 0, hs+bodyLen)
+	if hs > 127 {
+		rec = append(rec, byte(0x80|hs>>7), byte(hs&0x7f))
+	} else {
+		rec = append(rec, byte(hs))
+	}
+	for _, c := range serials {
+		if c < 128 {
+			rec = append(rec, byte(c))
+		} else {
+			rec = append(rec, byte(0x80|c>>7), byte(c&0x7f))
+		}
+	}
+	rec = append(rec, body...)
+	return rec, hs
+}
+
+//verif:bounds records of 0..3 columns, each column any of 19 serial types (all fixed-width types, blobs/texts of 0..3 bytes, one 58-byte text with a 2-byte serial type); body bytes free
+func VH_C14_record() {
+	k := verifChoice(4)
+	serials := make([]int, k)
+	for i := range serials {
+		serials[i] = vhSerials[verifChoice(len(vhSerials))]
+	}
+	rec, off := vhBuildRecord(serials)
+	got, err := parseRecord(rec)
+	verifAssert(err == nil, "well-formed record parses")
+	verifAssert(len(got) == k, "column count")
+	if err == nil && len(got) == k {
+		for i, c := range serials {
+			l := vhSerialLen(c)
+			vhCheckValue(got[i], c, rec[off:off+l])
+			off += l
+		}
+	}
+	verifReach("end")
+}
+
+//verif:bounds record header longer than 127 bytes (2-byte header-size varint): 130 columns of NULL/0/1 plus two free trailing columns
+func VH_C14_record_longheader() {
+	serials := make([]int, 0, 132)
+	for i := 0; i < 130; i++ {
+		serials = append(serials, [3]int{0, 8, 9}[i%3])
+	}
+	serials = append(serials, vhSerials[verifChoice(len(vhSerials))], 6)
+	rec, off := vhBuildRecord(serials)
+	got, err := parseRecord(rec)
+	verifAssert(err == nil, "well-formed record parses")
+	verifAssert(len(got) == len(serials), "column count")
+	if err == nil && len(got) == len(serials) {
+		for i, c := range serials {
+			l := vhSerialLen(c)
+			vhCheckValue(got[i], c, rec[off:off+l])
+			off += l
+		}
+	}
+	verifReach("end")
+}
+
+// ---- spilled payloads: cell parser + addOverflow against the layout rule ----
+
+// vhSpill checks one cell kind at U=512. cellKind: 0 table leaf, 1 index leaf,
+// 2 index interior. The cell bytes and up to three overflow pages are free
+// buffers; the reference (rmGetVarint, rmLocalSize, "4-byte next pointer then
+// U-4 content bytes") says where byte i of the payload lives.
+func vhSpill(cellKind int) {
+	const U = 512
+	cell := verifBytes(520)
+	pos := 0
+	var wantLeft uint32
+	if cellKind == 2 {
+		wantLeft = be32(cell, 0)
+		pos = 4
+	}
+	p, n := rmGetVarint(cell[pos:])
+	verifAssume(n > 0)
+	pos += n
+	var wantRowid int64
+	if cellKind == 0 {
+		r, n2 := rmGetVarint(cell[pos:])
+		verifAssume(n2 > 0)
+		wantRowid = r
+		pos += n2
+	}
+	local := rmLocalSize(p, U, cellKind == 0)
+	nov := verifChoice(3 + verifTier()) // number of overflow pages (quick: 0..2, thorough: 0..3)
+	rest := p - local
+	verifAssume(p >= 0)
+	if nov == 0 {
+		verifAssume(rest == 0)
+	} else {
+		verifAssume(rest > int64(nov-1)*(U-4) && rest <= int64(nov)*(U-4))
+	}
+	pager := &VerifPager{Locked: true}
+	next := uint32(0)
+	if nov > 0 {
+		next = be32(cell, pos+int(local))
+	}
+	for k := 0; k < nov; k++ {
+		verifAssume(next != 0 && next < 1<<31)
+		buf := verifBytes(U)
+		pager.IDs = append(pager.IDs, int(next))
+		pager.Bufs = append(pager.Bufs, buf)
+		next = be32(buf, 0)
+	}
+	if nov > 0 {
+		verifAssume(next == 0) // chain ends
+		// distinct pages (a chain never revisits a page)
+		for a := 0; a < nov; a++ {
+			for b := a + 1; b < nov; b++ {
+				verifAssume(pager.IDs[a] != pager.IDs[b])
+			}
+		}
+	}
+	db := VerifRawDatabase(pager, U)
+
+	var pl cellPayload
+	var err error
+	switch cellKind {
+	case 0:
+		var c tableLeafCell
+		c, err = parseTableLeaf(cell, U)
+		pl = c.payload
+		verifAssert(err != nil || c.left == wantRowid, "rowid")
+	case 1:
+		pl, err = parseIndexLeaf(cell, U)
+	case 2:
+		var c indexInteriorCell
+		c, err = parseIndexInterior(cell, U)
+		pl = c.payload
+		verifAssert(err != nil || c.left == int(wantLeft), "left child pointer")
+	}
+	verifAssert(err == nil, "well-formed cell parses")
+	if err != nil {
+		return
+	}
+	out, err := addOverflow(db, pl)
+	verifAssert(err == nil, "overflow chain loads")
+	if err != nil {
+		return
+	}
+	verifAssert(int64(len(out)) == p, "payload length")
+	i := verifInt64()
+	verifAssume(i >= 0 && i < p)
+	if int64(len(out)) == p {
+		var want byte
+		if i < local {
+			want = cell[pos+int(i)]
+		} else {
+			j := i - local
+			switch {
+			case j < U-4:
+				want = pager.Bufs[0][4+int(j)]
+			case j < 2*(U-4):
+				want = pager.Bufs[1][4+int(j-(U-4))]
+			default:
+				want = pager.Bufs[2][4+int(j-2*(U-4))]
+			}
+		}
+		verifAssert(out[i] == want, "payload byte")
+	}
+	verifReach("end")
+}
+
+//verif:merge rmGetVarint,rmLocalSize
+//verif:bounds U=512; payload length symbolic in [0, X+3*(U-4)] over 0..3 overflow pages; cell bytes, page numbers and page contents free; one skolem index for the content
+func VH_C14_spill_table_leaf() { vhSpill(0) }
+
+//verif:merge rmGetVarint,rmLocalSize
+//verif:bounds as VH_C14_spill_table_leaf, index threshold
+func VH_C14_spill_index_leaf() { vhSpill(1) }
+
+//verif:merge rmGetVarint,rmLocalSize
+//verif:bounds as VH_C14_spill_table_leaf, index interior cell (4-byte child pointer first)
+func VH_C14_spill_index_interior() { vhSpill(2) }
